@@ -3,6 +3,7 @@ package checks
 import (
 	"errors"
 	"fmt"
+	"os"
 	"time"
 
 	"github.com/jrhy/mast"
@@ -78,7 +79,29 @@ func enumC15(tier string, shard, nshards int, yield func(C15Case) bool) (bool, s
 			}
 		}
 	}
-	return false, "large trees (300-3000 entries quick, up to 60000 thorough; bf 16 and 4) differing in 1-5 keys"
+	// versions one key apart whose heights differ: exactly bf^k entries plus one insert (the tree grows a level), and
+	// bf^k+1 entries minus one (it shrinks): every subtree is common to both versions but sits one level deeper in one
+	for _, bf := range []uint{2, 3, 4, 16} {
+		for p := int(bf); p <= 5000; p *= int(bf) {
+			if p < 200 {
+				continue
+			}
+			for dir := 0; dir < 2; dir++ {
+				i++
+				if i%nshards != shard {
+					continue
+				}
+				cs := C15Case{Big: p, BigBF: bf, Changes: []int{p}, ColdCache: (p+dir)%3 == 0}
+				if dir == 1 {
+					cs = C15Case{Big: p + 1, BigBF: bf, Changes: []int{p / 2}, ColdCache: (p+dir)%3 == 0}
+				}
+				if !yield(cs) {
+					return false, ""
+				}
+			}
+		}
+	}
+	return false, "large trees (300-3000 entries quick, up to 60000 thorough; bf 16 and 4) differing in 1-5 keys; trees of bf^k (+1) entries one insert (delete) away from growing (shrinking) a level"
 }
 
 // countingDiff runs the three diff interfaces and returns, for each, the number of distinct node
@@ -234,6 +257,12 @@ func runC15(c C15Case, o *run.Obs) error {
 		return nil
 	}
 	d, shared := symDiff(nOld, nNew)
+	prelude := 0
+	if c.Big == 0 {
+		prelude = c.Pair.Prelude
+	} else if len(c.Changes)%2 == 0 {
+		prelude = 1 + c.Big%4
+	}
 	// freshly opened trees so that nothing is in memory; either cache-less or with a cold cache of their own
 	var cOld, cNew mast.NodeCache
 	if c.ColdCache {
@@ -319,9 +348,11 @@ func runC15(c C15Case, o *run.Obs) error {
 				if l == "" || !isShared(l) || !displaced(l) {
 					continue
 				}
+				// ... and, because the two stacks stay one level apart once a displaced shared subtree has been
+				// opened, the leftmost spine below it (each step opens the first child again to find the next key)
 				for l != "" && isShared(l) && !excusable[l] {
 					excusable[l] = true
-					if cn := node(l); cn != nil && len(cn.Keys) == 0 {
+					if cn := node(l); cn != nil && len(cn.Links) > 0 {
 						l = cn.Links[0]
 					} else {
 						break
@@ -343,6 +374,13 @@ func runC15(c C15Case, o *run.Obs) error {
 			if !excusable[name] {
 				outside++
 			}
+			if os.Getenv("VERIF_DEBUG_C15") != "" {
+				nk := -1
+				if nd := node(name); nd != nil {
+					nk = len(nd.Keys)
+				}
+				fmt.Printf("C15DEBUG %s loaded %s shared=%v excusable=%v keys=%d posOld=%+v posNew=%+v\n", what, name[:6], isShared(name), excusable[name], nk, posOld[name], posNew[name])
+			}
 		}
 		if outside <= bound && o.Excl("diff-loads-shared-nodes-adjacent-to-change") {
 			return nil
@@ -352,6 +390,13 @@ func runC15(c C15Case, o *run.Obs) error {
 	var li int
 	// each interface is measured on freshly opened trees (a warm cache would hide reads)
 	for which := 0; which < 3; which++ {
+		if prelude > 0 {
+			// another diff, on trees of its own, was started and abandoned part-way before the measured one
+			if pa, pb, ok := open2(); ok {
+				diffPrelude(&pair{old: pa, new: pb}, prelude)
+				o.Label("after-an-abandoned-diff")
+			}
+		}
 		oldT, newT, ok := open2()
 		if !ok {
 			o.Label("aborted:base-failure")
